@@ -101,7 +101,8 @@ Proof.
     cbn [fst snd] in *. split; [chain; apply set_pending_ok; eauto with safe|auto].
   - match goal with |- context [send_heartbeat_forced ?x i] => set (r1 := x) end.
     assert (S1: Step nd mx r r1) by (unfold r1; destruct (_ && _); [auto with safe|apply set_heartbeat_all_ok, H]).
-    unfold send_heartbeat_forced. rewrite (chk_dev_in _ _ _ _ (Step_G _ _ _ _ S1) Hi).
+    unfold send_heartbeat_forced. destruct (negb (is_active_node (rn r1))); [cbn [fst snd]; split; [exact S1|apply evs_nil]|].
+    rewrite (chk_dev_in _ _ _ _ (Step_G _ _ _ _ S1) Hi).
     match goal with |- context [rsend r1 ?m i] => pose proof (rsend_ok' nd mx r1 m i (Step_G _ _ _ _ S1)) as [S V]; destruct (rsend r1 m i) as [[r2 ev] ok] end.
     cbn [fst snd] in *. split; [chain|exact V].
   - pose proof (send_ack_ok nd mx r i dst ack H (Hfit dst ack eq_refl)) as [S V]. destruct (send_ack r i dst ack) as [r1 ev]. cbn [fst snd] in *.
@@ -206,7 +207,8 @@ Proof.
     destruct (rsend (chk_dev r i) _ i) as [[r1 ev] ok]. cbn [fst] in *. rewrite set_pending_rq, R. apply chk_dev_rq.
   - match goal with |- context [send_heartbeat_forced ?x i] => set (r1 := x) end.
     assert (E1: r_q r1 = r_q r) by (unfold r1; destruct (_ && _); [reflexivity|apply set_heartbeat_all_rq]).
-    unfold send_heartbeat_forced. pose proof (send_step_rq r1 i (heartbeat_msg (dev_src (chk_dev r1 i) i) (ss_period (x_hb (get_devx (chk_dev r1 i) i))) 255)) as R.
+    unfold send_heartbeat_forced. destruct (negb (is_active_node (rn r1))); [exact E1|].
+    pose proof (send_step_rq r1 i (heartbeat_msg (dev_src (chk_dev r1 i) i) (ss_period (x_hb (get_devx (chk_dev r1 i) i))) 255)) as R.
     destruct (rsend (chk_dev r1 i) _ i) as [[r2 ev] ok]. cbn [fst] in *. congruence.
   - pose proof (send_ack_rq r i dst ack) as R. destruct (send_ack r i dst ack) as [r1 ev]. cbn [fst] in *. rewrite set_instances_rq. exact R.
   - rewrite send_ack_rq. destruct chg; reflexivity.
